@@ -127,6 +127,38 @@ example : parseURI [109,58,47,47, 72, 47,100] = .ok ⟨none, none, some [104], n
 example : wfHost [97, 64, 98] = false ∧ wfHost [97, 47, 98] = false ∧ wfHost [97, 58, 98] = false ∧
     wfHost [58, 58, 49] = true ∧ wfHost [102,101,56,48,58,58,49,37,101,116,104,48] = true := by decide
 
+/-! ## extra parameters -/
+
+/-- `connectionForURI(uri, **args)`: for every list of parameters with distinct names and non-empty
+    values (any scalar values in names and values: `+ & = %41`, blanks, non-ASCII …), `urlencode`
+    produces a legal query and `parse_qsl` of it gives exactly the parameters back. -/
+theorem C18_params_roundtrip (ps : List (Str × Str)) (ok : ParamsOk ps) (hne : ps ≠ []) :
+    ∃ q, urlencode ps = some q ∧ q.all okQuery = true ∧ dictOf (parseQsl q) = ps :=
+  params_back ps ok hne
+
+/-- the URI a generic connection reports, extended with extra parameters the way
+    `connectionForURI(uri, **args)` extends it, parses back to the same components and exactly
+    those parameters -/
+theorem C18_parse_build_params (c : Conn) (wf : WfConn c) (ps : List (Str × Str)) (ok : ParamsOk ps) :
+    ∃ u u', genericUri c = .ok u ∧ withParams u ps = some u' ∧
+      parseURI u' = .ok ⟨truthyS c.user, truthyS c.password, truthyS c.host,
+        (truthyI c.port).map Int.toNat, 47 :: dbOf c, ps⟩ :=
+  parse_build_params c wf ps ok
+
+/-- the same for the sqlite builder and every absolute file name -/
+theorem C18_sqlite_parse_build_params (fn : Str) (hv : validStr fn = true) (hd : startsWith [47] fn = true)
+    (ps : List (Str × Str)) (ok : ParamsOk ps) :
+    ∃ u u', sqliteUri fn = .ok u ∧ withParams u ps = some u' ∧
+      parseURI u' = .ok ⟨none, none, none, none, fn, ps⟩ := by
+  obtain ⟨t, rfl⟩ := startsWith_slash fn hd
+  exact sqlite_parse_build_params t hv ps ok
+
+-- non-vacuity: `{'a b+': 'x&cache=0', 'r': '100%41'}`
+example : ParamsOk [([97, 32, 98, 43], [120, 38, 99, 61, 48]), ([114], [49, 48, 48, 37, 52, 49])] :=
+  { valid := by decide, nonempty := by decide, distinct := by decide }
+example : urlencode [([97, 32, 98, 43], [120, 38, 99, 61, 48]), ([114], [49, 48, 48, 37, 52, 49])] =
+    some [97,43,98,37,50,66, 61, 120,37,50,54,99,37,51,68,48, 38, 114, 61, 49,48,48,37,50,53,52,49] := by decide
+
 /-! ## bad ports are rejected -/
 
 /-- Whatever the (well-formed) other components, a port text that is not a string of ASCII digits
